@@ -148,8 +148,15 @@ fn gen(seed: u64, family: &str, tier: Tier) -> Case {
     gen_traversal(&mut r, &mut w);
     gen_algorithm(&mut r, &mut w, true);
     gen_termination(&mut r, &mut w);
-    let pc = gen_plugins(&mut r, &mut w);
-    w.edge_oriented = !pc.rtree && r.chance(0.25);
+    let mut pc = gen_plugins(&mut r, &mut w);
+    if family == "yens-known" {
+        // directed at the two recorded Yen's-algorithm findings, so that every run of the check meets them
+        w.algorithm = json!({"type": "yens", "k": r.range(2, 3), "underlying": {"type": "dijkstra"}});
+        w.termination = json!({"type": "query_runtime", "limit": "00:10:00", "frequency": 100000});
+        w.input_plugins = vec![];
+        pc = PluginChoice { grid: false, lb: None, inject: false, rtree: false };
+    }
+    w.edge_oriented = !pc.rtree && family != "yens-known" && r.chance(0.25);
     w.parallelism = r.range(1, 8) as usize;
     w.persist = true;
     w.out = None;
@@ -305,12 +312,18 @@ impl Check for C12 {
         "C12"
     }
     fn families(&self, _tier: Tier) -> Vec<&'static str> {
-        vec!["malformed", "malformed", "malformed", "wellformed"]
+        let mut f = vec![];
+        for _ in 0..10 {
+            f.extend(["malformed", "malformed", "malformed", "wellformed"]);
+        }
+        f[7] = "yens-known";
+        f.push("malformed"); // 41 entries: coprime with the worker count, so directed runs spread over all workers
+        f
     }
     fn default_runs(&self, tier: Tier) -> u64 {
         match tier {
             Tier::Quick => 1200,
-            Tier::Thorough => 60000,
+            Tier::Thorough => 40000,
         }
     }
     fn gen(&self, seed: u64, family: &str, tier: Tier) -> Case {
